@@ -256,10 +256,17 @@ def run(tier, seed, replay):
         bad, n = _skcli.check(ID, seed, [cli_item(json.load(open(replay))["case"])])
         return 1 if bad else 0
     rc = core.run_property(mod, tier, seed, replay)
-    if tier == "thorough" and not replay:
+    if not replay:
         rng = random.Random(seed + 1000003)
-        items = [cli_item(c) for c in core.corpus_cases(ID) + list(gen(rng, "quick", 4 * N_CLI))]
-        bad, n = _skcli.check(ID, seed, items[:N_CLI * 3])
+        cands = core.corpus_cases(ID) + list(gen(rng, "quick", 4 * N_CLI))
+        if tier == "thorough":
+            chosen = cands[:N_CLI * 3]
+        else:
+            # quick: 90 invocations — queries with a bar and no blank (stray bars glued to a term) first
+            glued = [c for c in cands if "|" in dec(fields(c)[3]) and " " not in dec(fields(c)[3])]
+            chosen = glued[:40] + cands[:50]
+        items = [cli_item(c) for c in chosen]
+        bad, n = _skcli.check(ID, seed, items)
         _skcli.annotate(ID, n, bad)
         print("%s cli-level: %d sk --filter invocations, %d mismatches" % (ID, n, bad))
         if bad:
